@@ -175,17 +175,28 @@ def check(c):
     st = c.func(TP, 'TaskPool.spawn_task')
     nones = [r for r in c.idx.walk(st.node) if isinstance(r, ast.Return)
              and norm(r.value) == 'None' and c.holds(
-                 r, 'self.stop_point < pct')]
+                 r, 'self.stop_point < _p')]
     c.floor('C07.stop-point', 'return None ⟸ prerequisite beyond stop point',
             len(nones), 1)
     for r in nones:
         c.guard('C07.stop-point', r, [
             'self.stop_point', 'itask.point <= self.stop_point'], st)
-        loop = c.idx.parent[id(c.idx.parent[id(r)])]
+        # the points tested are all the prerequisite target points: either a
+        # `for pct in <points>: if pct > stop: return None` loop or the
+        # equivalent `if any(pct > stop for pct in <points>): return None`
+        srcs = set()
+        cur = r
+        while id(cur) in c.idx.parent and cur is not st.node:
+            cur = c.idx.parent[id(cur)]
+            if isinstance(cur, ast.For):
+                srcs.add(norm(cur.iter))
+            if isinstance(cur, ast.If):
+                for n in ast.walk(cur.test):
+                    if isinstance(n, (ast.GeneratorExp, ast.ListComp)):
+                        srcs |= {norm(g.iter) for g in n.generators}
         c.ob('C07.stop-point', c.key(r, st) + ' over all target points',
-             isinstance(loop, ast.For) and norm(loop.iter) ==
-             'itask.state.prerequisites_get_target_points()',
-             c.where(r, st), '')
+             srcs == {'itask.state.prerequisites_get_target_points()'},
+             c.where(r, st), f'{sorted(srcs)}')
     # no task beyond the stop point is released to run: the runahead limit is
     # capped at the stop point (after the future-offset extension)
     from rules._shared import stop_point_limit_rules
